@@ -1,1 +1,22 @@
-// Verification accessors for src/fft_stream.rs (child module of it; included under cfg(rustradio_verif)).
+// Verification accessors for src/fft_stream.rs (child module; cfg(rustradio_verif)).
+use super::*;
+
+/// An FftStream around a caller-supplied transform (the planner and the butterflies of
+/// rustfft are outside bounded reach; the block's framing logic is not).
+pub fn with_engine(
+    src: ReadStream<Complex>,
+    size: usize,
+    fft: std::sync::Arc<dyn rustfft::Fft<Float>>,
+) -> (FftStream, ReadStream<Complex>) {
+    let (dst, dr) = crate::stream::new_stream();
+    (
+        FftStream {
+            size,
+            fft,
+            src,
+            dst,
+            threaded: false,
+        },
+        dr,
+    )
+}
